@@ -28,6 +28,9 @@ type runner struct {
 	rep   *lib.Report
 	pre   []*View
 	fails map[string]bool
+	// monitor bookkeeping per module and oracle: removed by governance since it bonded / add-delegate accepted after that
+	removed []map[int]bool
+	readded []map[int]bool
 }
 
 func newRunner(seed int64, modules []string, rep *lib.Report) *runner {
@@ -36,6 +39,8 @@ func newRunner(seed int64, modules []string, rep *lib.Report) *runner {
 	for _, m := range r.w.mods {
 		v := m.view()
 		r.pre = append(r.pre, v)
+		r.removed = append(r.removed, map[int]bool{})
+		r.readded = append(r.readded, map[int]bool{})
 		m.view0 = v.coq()
 		m.initArg = fmt.Sprintf("%d %d %d %s %d %s %d", v.Height, int64(r.w.c.Ctx.BlockTime().Sub(lib.GenesisTime).Seconds()),
 			r.w.ubtime, v.Threshold, v.Multiple, v.Fraction, v.Window)
@@ -60,9 +65,26 @@ func (r *runner) do(op Op) (class int) {
 			}
 			r.rep.Count("err/" + op.K + "/" + e)
 		}
+		if a.class == 0 {
+			pre := r.pre[a.mod]
+			switch op.K {
+			case "gov":
+				for _, rec := range pre.Recs {
+					if pre.inProp(rec.A) && !hasInt(op.L, rec.A) {
+						r.removed[a.mod][rec.A] = true
+					}
+				}
+			case "bond":
+				r.removed[a.mod][op.A], r.readded[a.mod][op.A] = false, false
+			case "add":
+				if r.removed[a.mod][op.A] {
+					r.readded[a.mod][op.A] = true
+				}
+			}
+		}
 		var vio []violation
 		vio = append(vio, checkStep(op, a.class, r.pre[a.mod], post)...)
-		vio = append(vio, checkState(post)...)
+		vio = append(vio, checkState(post, r.readded[a.mod])...)
 		for _, v := range vio {
 			key := fmt.Sprintf("%s/%d/%s", v.sig, a.mod, strings.SplitN(v.what, ":", 2)[0])
 			if r.fails[key] {
